@@ -481,3 +481,69 @@ func HarnessC13CancelledDuplex() {
 	_ = stream.CloseResponse()
 	check(verifQuiesce() == 0, "no goroutine remains after the cancelled stream")
 }
+
+// HarnessC13SharedHandlerError: values owned by user code on the handler
+// side.  A streaming handler ends every call by returning the same
+// package-level *Error value (a sentinel) after setting a per-call response
+// trailer.  Nothing of one call may show up in another: the second call's
+// error metadata and trailers carry only its own call id, and the library
+// must not write into the sentinel the handler returned.
+//
+//verif:harness property=C13 stubs=json,wire shard=proto:3
+func HarnessC13SharedHandlerError() {
+	proto := nondetChoice("proto", 3)
+	sentinel := NewError(CodeAborted, errors.New("shared"))
+	sentinel.Meta().Set("X-Static", "s")
+	handler := NewServerStreamHandler("/pkg.Svc/Method", func(ctx context.Context, req *Request[[]byte], s *ServerStream[[]byte]) error {
+		s.ResponseTrailer().Set("X-Call-Id", c13Tag(*req.Msg))
+		if nondetBool("sendFirst") {
+			out := []byte{1}
+			if err := s.Send(&out); err != nil {
+				return err
+			}
+		}
+		return sentinel
+	}, stackHandlerOptions()...)
+	client := NewClient[[]byte, []byte](&freshTransport{handler: handler}, stackURL, stackClientOptions(proto)...)
+	call := func(payload []byte) (http.Header, http.Header) {
+		in := append([]byte{}, payload...)
+		stream, err := client.CallServerStream(context.Background(), NewRequest(&in))
+		check(err == nil, "starting the stream succeeds")
+		if err != nil {
+			return nil, nil
+		}
+		n := 0
+		for stream.Receive() {
+			n++
+			if n > 2 {
+				break
+			}
+		}
+		serr := stream.Err()
+		check(CodeOf(serr) == CodeAborted, "the handler's error arrives")
+		var meta http.Header
+		if ce, ok := asError(serr); ok {
+			meta = ce.Meta()
+		}
+		tr := stream.ResponseTrailer()
+		_ = stream.Close()
+		return meta, tr
+	}
+	a := c13Payload("a", 1)
+	b := c13Payload("b", 1)
+	assume(a[0] != b[0])
+	metaA, _ := call(a)
+	metaB, trB := call(b)
+	if metaA != nil {
+		check(sameValues(metaA.Values("X-Call-Id"), c13Tag(a)), "the first call's error metadata carries its own call id")
+	}
+	if metaB != nil {
+		check(sameValues(metaB.Values("X-Call-Id"), c13Tag(b)), "the second call's error metadata carries only its own call id")
+		check(sameValues(metaB.Values("X-Static"), "s"), "the error's own metadata arrives once")
+	}
+	if trB != nil {
+		vals := trB.Values("X-Call-Id")
+		check(len(vals) == 0 || sameValues(vals, c13Tag(b)), "the second call's trailers carry only its own call id")
+	}
+	check(len(sentinel.Meta()) == 1 && sameValues(sentinel.Meta().Values("X-Static"), "s"), "the library does not write into the error value the handler returned")
+}
